@@ -69,3 +69,22 @@ Theorem C17_dot_skeleton_is_size_generic : forall d1 d2 dout d1' d2' dout',
   skel (lower_dot d1 d2 dout) = skel (lower_dot d1' d2' dout').
 Proof. exact skel_dot. Qed.
 Print Assumptions C17_dot_skeleton_is_size_generic.
+
+(* n-ary element-wise operations (add, multiply, maximum, ... with three or more operands, and the coordinate sums of the
+   indexing operations) are unfolded into binary backend calls by a kernel regenerated from
+   adapter/_util.py:_associative_binary_to_nary (Gen/GenNary.v): the operands as written, left to right - a function of the
+   operand LIST alone, polymorphic in what the operands are, so no length can enter the order or the number of calls. *)
+From EinxV Require Import Gen.GenNary.
+Theorem C17_nary_operations_follow_the_written_order : forall (A : Type) (op : A -> A -> A) x ys,
+  gen_nary op (x :: ys) = Some (fold_left op ys x).
+Proof. reflexivity. Qed.
+Print Assumptions C17_nary_operations_follow_the_written_order.
+
+Theorem C17_nary_operations_commute_with_any_relabelling : forall (A B : Type) (opA : A -> A -> A) (opB : B -> B -> B) (h : A -> B),
+  (forall a b, h (opA a b) = opB (h a) (h b)) ->
+  forall args, option_map h (gen_nary opA args) = gen_nary opB (map h args).
+Proof.
+  intros A B opA opB h Hh [|x ys]; [reflexivity|]. cbn [gen_nary map option_map]. f_equal.
+  revert x. induction ys as [|y r IH]; intros x; cbn [fold_left map]; [reflexivity|]. now rewrite IH, Hh.
+Qed.
+Print Assumptions C17_nary_operations_commute_with_any_relabelling.
